@@ -85,6 +85,27 @@ CLAIMS["C05"] = dict(
          "The per-token value cache (finding D3) is owned by C16.",
 )
 
+CLAIMS["C07"] = dict(
+    text="Proof on the real report machinery and the real main_cli: emit_report latches the error condition on the active handler after calling it, whatever it "
+         "returned, and aborts on critical; handle_reports.__exit__ turns a latched error into UnrecoverableError on normal and recoverable exits and pops its stack on "
+         "every exit; FilterHandler forwards every non-warning and drops a warning iff disabled or outside the default class; for every outcome class of parse+compile "
+         "(clean, warnings only, error then return, error then RecoverableError, critical, internal exception) x output options (8 -o spellings, --implicit-bin, --lst, "
+         "0-2 make_* outputs) x I/O failures: exit status != 0 iff an error-severity report, an I/O failure or the internal-error path; nothing is written while an error "
+         "is latched; warnings-only runs succeed and write every output with the bytes of its format at its path. Frame: the report handlers write only their own "
+         "fields and open nothing. Run-time check: the real CLI on 10 planted faults x 2 report formats x -W selections (testing).",
+    note="Trusted: pyvc (with / try / SystemExit), z3; argparse is external (the args object is the input). parse+compile are a contract reporting through the real "
+         "emit_report. Known findings proved absent outside their regions: D12 (a later write fails after an earlier one succeeded), D8 (image >= 64 KiB to bin).",
+)
+
+CLAIMS["C19"] = dict(
+    text="Proof for symbol tables of 0-3 entries with symbolic names and values (file-prefix numbers and key kinds enumerated): generate_listing writes, under each "
+         "file's name, exactly one line per file-private symbol and none for scope-local keys; lines are ordered by (value, name); the numeral reads back in base 8 as "
+         "the value (negative and > 16 bit values included) and is at least 6 wide; main_cli --lst writes it beside the first output, '.<format>' replaced by '.lst', "
+         "'-' -> listing.lst, for 8 output spellings x 0-2 make_* outputs. Label values are the address objects of the C02 accounting. Run-time check on real listings.",
+    note="Trusted: pyvc incl. its forking model of list.sort, z3; oct()/int(.,8) are axiomatised (zero padding, sign) and differential-tested by the run-time check. "
+         "Known findings D12/D8 as in C07.",
+)
+
 CLAIMS["C09"] = dict(
     text="Lemmas over the encoder contracts (which are re-discharged against the real code in the same check): relative and relative-deferred words and branch/SOB "
          "displacements to targets inside the program are independent of the link base for all integers incl. wrap-around modulo 2^16; immediate/absolute/index words "
